@@ -195,14 +195,14 @@ func (x *Ctx) Await(c *Conn, call *Call) State {
 			if c.Consumed() != lastConsumed {
 				continue
 			}
-			x.Violate("spin-"+sanitizeName(call.Name)+"-"+stuckSite(false), fmt.Sprintf("%s neither returned nor blocked in Read and consumed no input during %.1fs of CPU time (consumed %d of %d fed bytes); log: %s; stacks:\n%s",
+			x.Violate("spin-"+sanitizeName(call.Name), fmt.Sprintf("(innermost site: "+stuckSite(false)+") %s neither returned nor blocked in Read and consumed no input during %.1fs of CPU time (consumed %d of %d fed bytes); log: %s; stacks:\n%s",
 				call.Name, (cpuTime()-cpu0).Seconds(), c.Consumed(), c.Fed(), LogSummary(c.Log()), TransportStacks(4000)))
 			x.Stuck = true
 			MarkLeaked(TransportGoroutines())
 			return Stuck
 		}
 		if time.Since(t0) >= x.WedgeWall {
-			x.Violate("wedged-"+sanitizeName(call.Name)+"-"+stuckSite(false), fmt.Sprintf("%s neither returned nor blocked in Read for %.0fs without consuming input (consumed %d of %d); log: %s; stacks:\n%s",
+			x.Violate("wedged-"+sanitizeName(call.Name), fmt.Sprintf("(innermost site: "+stuckSite(false)+") %s neither returned nor blocked in Read for %.0fs without consuming input (consumed %d of %d); log: %s; stacks:\n%s",
 				call.Name, time.Since(t0).Seconds(), c.Consumed(), c.Fed(), LogSummary(c.Log()), TransportStacks(4000)))
 			// (x.Stuck stays false: a parked goroutine does not disturb the CPU clock of later cases)
 			MarkLeaked(TransportGoroutines())
